@@ -212,6 +212,22 @@ func c02Eval(c *Ctx, cs Case) {
 			c02Pair(c, cs, withTable(signed, winCert(b)), right, "blob-"+class, "right")
 		}
 	})
+	// 6. a covered byte changed, and the changed image signed by a foreign key: one entry has the right key
+	// (over the old digest), the other the right digest (under the wrong key) — no single entry has both
+	{
+		_, be := peOffsets(base)
+		if be > 0x100 {
+			tb := append([]byte{}, base...)
+			pos := be - 1 - c.Rng.Intn(min(be-1, 64))
+			tb[pos] ^= 0x04
+			if cl := c.Drv.Ask("pe.classify", hx(tb), fmt.Sprint(pos)); cl == "covered" {
+				if _, sigF, err := signImage(c, tb, 3); err == nil {
+					all(withTable(tb, append(winCert(sig), winCert(sigF)...)), "tampered+foreign-resign")
+					all(withTable(tb, append(winCert(sigF), winCert(sig)...)), "tampered+foreign-resign")
+				}
+			}
+		}
+	}
 	// 5. two entries: a foreign valid signature first, ours second, and the reverse
 	if s2signed, sig2, err := signImage(c, base, 3); err == nil {
 		_ = s2signed
@@ -234,7 +250,7 @@ func c02Gen(c *Ctx) {
 
 func init() {
 	register("C02", &PropDef{
-		Rule:   "images from the C01 generator and two repository binaries, signed by the library; for each, Verify under the signer's certificate, a twin certificate (same issuer and serial, another key) and a stranger, on: the signed image, the unsigned image, ~25 stratified single-byte changes (+8 inside the certificate table), a cross-image transplant of the certificate table, a covered-byte change with the embedded digest overwritten by the new image digest (alone, and combined with each targeted blob edit and OID replacement), targeted edits inside the blob (content, content type, certificates, signer identity, message digest, dropped attributes), a sample of generic blob mutations, and two-signature tables in both orders. Every pair is compared with the Lean Impl verifier (real SHA-256/RSA) and judged by Spec.authenticodeVerify. Every case is non-trivial; distinct = distinct (image bytes, certificate).",
+		Rule:   "images from the C01 generator and two repository binaries, signed by the library; for each, Verify under the signer's certificate, a twin certificate (same issuer and serial, another key) and a stranger, on: the signed image, the unsigned image, ~25 stratified single-byte changes (+8 inside the certificate table), a cross-image transplant of the certificate table, a covered-byte change with the embedded digest overwritten by the new image digest (alone, and combined with each targeted blob edit and OID replacement), targeted edits inside the blob (content, content type, certificates, signer identity, message digest, dropped attributes), a sample of generic blob mutations, two-signature tables in both orders, and a tampered image carrying the original signature plus a foreign key's signature over the tampered bytes (both orders). Every pair is compared with the Lean Impl verifier (real SHA-256/RSA) and judged by Spec.authenticodeVerify. Every case is non-trivial; distinct = distinct (image bytes, certificate).",
 		Assume: []string{"RSA/SHA-256 on the model side are the executable Lean implementations", "x509.ParseCertificates is opaque (its verdicts are handed to the model)"},
 		Eval:   c02Eval, Gen: c02Gen,
 	})
